@@ -7,7 +7,9 @@ import vlib, gen, strgen
 import codes_common as CC
 
 THEOREMS = ['C10_category_range', 'C10_category_of_family', 'C10_field_order', 'C10_pad5_iso', 'C10_text_key_shape',
-            'C10_relay_distance', 'C10_sort_length', 'C10_fieldOrder_total_generic']
+            'C10_relay_distance', 'C10_sort_length', 'C10_fieldOrder_total_generic',
+            'pyMatch_eq_language', 'C10_category_by_language', 'C10_hurdles_total', 'C10_duration_total']
+LEAN_MODULES = ['AthlibVerif.Oblig.C07.Tie', 'AthlibVerif.Oblig.C10.Groups', 'AthlibVerif.Props.C10']
 
 def call(f, *a):
     try: return 'ok', f(*a)
@@ -22,10 +24,10 @@ def run(ctx):
     g = gen.regex(ctx, ['PAT_EVENT_CODE', 'PAT_RELAYS', 'PAT_THROWS', 'PAT_JUMPS', 'PAT_HURDLES', 'PAT_TRACK', 'PAT_RACES_FOR_DISTANCE'])
     if g is None: return
     side, alpha, trees, mod, changed = g
-    ok, log, failed = ctx.build(['AthlibVerif.Props.C10'])
+    ok, log, failed = ctx.build(LEAN_MODULES)
     if ok:
         ctx.audit(['AthlibVerif.Props.C10'], ['AthlibVerif.Props.C10.' + n for n in THEOREMS])
-        if not ctx.quick(): ctx.leanchecker(['AthlibVerif.Props.C10'])
+        if not ctx.quick(): ctx.leanchecker(['AthlibVerif.Props.C10', 'AthlibVerif.Lemmas.MatchSound', 'AthlibVerif.Lemmas.MatchCodes'])
     vlib.use_repo()
     import athlib
     from athlib import codes
